@@ -4,7 +4,7 @@
 //   commands executed through the command() efun are logged as       ecmd <user> =<text>
 // After the log line the script registered for that text (if any) runs:
 //   kick,<u> destruct(u)   drop,<u> remove_interactive(u)   ecmd,<u>,<text> u->force(text) (command() efun)
-//   gc get_char()          it input_to()
+//   gc get_char()          it input_to()          itn input_to(.., I_NOECHO)
 #include "/include/vcommon.h"
 
 string oid = "?";
@@ -98,6 +98,10 @@ void do_op (string s) {
   case "gc":
     r = get_char ("got_char");
     VL ("gc " + (this_player () ? this_player ()->query_oid () : "?") + " " + r);
+    break;
+  case "itn":   // input_to with I_NOECHO (password prompt)
+    r = input_to ("got_line", 1);
+    VL ("it " + (this_player () ? this_player ()->query_oid () : "?") + " " + r);
     break;
   case "it":
     r = input_to ("got_line");
